@@ -642,6 +642,10 @@ m('undo-of-applied-delete-not-guarded', ['C20', 'C02'], LR, """				if slotNum >=
 m('recovery-insert-ignores-recorded-slot', ['C20'], TP, """		if recordedSlot == tp.GetTupleCount() || (recordedSlot < tp.GetTupleCount() && tp.GetTupleSize(recordedSlot) == 0) {
 			slot = recordedSlot
 		}""", """		_ = recordedSlot""", ['C20-R6 [TablePage.InsertTuple:recorded-slot-honoured-in-recovery]'])
+m('catalog-pages-flushed-ahead-of-log', ['C02', 'C10'], CAT, """	if c.LogManager.IsEnabledLogging() {
+		c.LogManager.Flush()
+	}
+	// flush a page having table definitions""", """	// flush a page having table definitions""", ['C02-R6 [Catalog.insertTable:log-forced-before-catalog-pages]'])
 # drop the one that needs a helper that does not exist
 M = [x for x in M if x['id'] != 'insert-executor-unlocks-early']
 os.chdir(os.path.dirname(os.path.abspath(__file__)) + '/..')
